@@ -27,7 +27,7 @@ import (
 // End-to-end outcome codes.
 var (
 	e2eTransient = []string{"408", "409", "429", "500", "502", "503", "504", "EOF", "RST", "REF"}
-	e2eTerminal  = []string{"S", "J", "J503", "400", "401", "403", "404", "422", "B400", "B401", "B404"}
+	e2eTerminal  = []string{"S", "J", "J503", "400", "401", "403", "404", "422", "B400", "B401", "B404", "B400R", "B400E"}
 )
 
 func e2eKind(code string) byte {
@@ -57,7 +57,7 @@ func e2eClass(code string) string {
 		return "reset"
 	case "REF":
 		return "refused"
-	case "B400", "B401", "B404":
+	case "B400", "B401", "B404", "B400R", "B400E":
 		return "4xx-body-mentions-retryable"
 	case "408", "409", "429":
 		return "http-" + code
@@ -77,6 +77,8 @@ var bodyMentions = map[string]struct {
 	"B400": {400, "upstream said 503 Service Unavailable"},
 	"B401": {401, "error code 500"},
 	"B404": {404, "rate limiter answered status 429"},
+	"B400R": {400, "upstream dial tcp 10.0.0.1:80: connect: connection refused"},
+	"B400E": {400, "backend closed the stream: EOF"},
 }
 
 type seenReq struct {
